@@ -1,5 +1,5 @@
 """C11 — MPS/MPO operations: frame condition and symbol tables."""
-from ..rules import canon, pure, tables
+from ..rules import kernels, canon, pure, tables
 
 META = {
     "title": "MPS/MPO operations are faithful to their dense counterparts",
@@ -31,3 +31,4 @@ def check(ctx):
     ctx.floor("PURE", 30)
     ctx.floor("TABLES-mpo", 17)
     canon.gauge_moves(ctx)
+    kernels.symbolic_operator_builder(ctx)
